@@ -1,5 +1,6 @@
 """JSON encoding of plain-data cases (bytes, tuples, non-str dict keys, special floats) for
 replay files, samples and known-finding records.  decode(encode(x)) == x for that universe."""
+import datetime as _dt
 import json
 import math
 
@@ -25,6 +26,10 @@ def enc(o):
         if all(isinstance(k, str) and not k.startswith("__") for k in o):
             return {k: enc(v) for k, v in o.items()}
         return {"__d": [[enc(k), enc(v)] for k, v in o.items()]}
+    if type(o).__name__ == "UUID" and hasattr(o, "int"):
+        return {"__u": "%032x" % o.int}
+    if isinstance(o, _dt.datetime):
+        return {"__dt": o.isoformat()}
     return {"__r": repr(o)}
 
 
@@ -46,6 +51,11 @@ def dec(o):
                 return frozenset(dec(x) for x in v)
             if k == "__d":
                 return {dec(a): dec(b) for a, b in v}
+            if k == "__u":
+                from hippolyzer.lib.base.datatypes import UUID
+                return UUID(int=int(v, 16))
+            if k == "__dt":
+                return _dt.datetime.fromisoformat(v)
             if k == "__r":
                 return v
         return {k: dec(v) for k, v in o.items()}
